@@ -18,6 +18,7 @@
 package validator
 
 import (
+	"io"
 	"net/http"
 
 	"fmt"
@@ -152,7 +153,14 @@ func (v *Validator) Handle(ctx *context.Context) string {
 		}
 	}
 	if v.signer != nil {
-		if err := v.signer.Verify(req.Std()); err != nil {
+		// FetchPayload has already consumed the body of the standard request,
+		// the signature must be verified against the payload that is forwarded.
+		stdr := req.Std()
+		if !req.IsStream() {
+			stdr = stdr.WithContext(stdr.Context())
+			stdr.Body = io.NopCloser(req.GetPayload())
+		}
+		if err := v.signer.Verify(stdr); err != nil {
 			prepareErrorResponse(http.StatusUnauthorized, "signature validator: ", err)
 			return resultInvalid
 		}
